@@ -38,8 +38,36 @@ Definition chunks (k : nat) (l : list T) : list (list T) := chunks_fuel (length 
 
 Definition pure (ts : list T) (crit : St) : list St := solve_seq None ts ++ [crit].
 
-Definition par_pure (k : nat) (ts : list T) (crit : St) : list St :=
-  concat (map (solve_seq None) (chunks k ts)) ++ [crit].
+(** [solve_temperatures] (l.76-95): the per-chunk worker returns a [Result]; in the code it is always [Ok]
+    because a failing temperature is skipped inside the loop ([.ok()]), never propagated *)
+Definition solve_temperatures (c : list T) : option (list St) := Some (solve_seq None c).
+
+(** [filter_map(|t| worker(t).ok()).flatten().collect()] for an arbitrary chunk worker *)
+Definition collect_chunks (worker : list T -> option (list St)) (cs : list (list T)) : list St :=
+  flat_map (fun c => match worker c with Some l => l | None => [] end) cs.
+
+Definition par_pure_with (worker : list T -> option (list St)) (k : nat) (ts : list T) (crit : St) : list St :=
+  collect_chunks worker (chunks k ts) ++ [crit].
+
+Definition par_pure (k : nat) (ts : list T) (crit : St) : list St := par_pure_with solve_temperatures k ts crit.
+
+Lemma collect_chunks_total : forall cs,
+  collect_chunks solve_temperatures cs = concat (map (solve_seq None) cs).
+Proof.
+  intros cs. unfold collect_chunks, solve_temperatures. induction cs as [|c cs IH]; simpl; auto.
+  rewrite IH. reflexivity.
+Qed.
+
+(** a worker that propagates the failure of a point (returns [Err] as soon as one temperature fails)
+    instead of skipping it: the chunk's converged neighbours are lost with it *)
+Fixpoint solve_strict (g : option St) (ts : list T) : option (list St) :=
+  match ts with
+  | [] => Some []
+  | t :: ts' => match solve t g with
+                | Some s => match solve_strict (Some s) ts' with Some l => Some (s :: l) | None => None end
+                | None => None
+                end
+  end.
 
 (** the same with the chunks processed in any order but collected by chunk index is the same
     function: nothing in [par_pure] depends on when a chunk is processed, because chunks share no
@@ -103,28 +131,64 @@ Qed.
 Theorem par_pure_order : guess_independent ->
   forall k ts crit, 1 <= k -> par_pure k ts crit = pure ts crit.
 Proof.
-  intros HG k ts crit Hk. unfold par_pure, pure.
+  intros HG k ts crit Hk. unfold par_pure, par_pure_with, pure. rewrite collect_chunks_total.
   rewrite solve_seq_concat; auto. rewrite chunks_concat; auto.
 Qed.
 
 Theorem critical_point_last : forall k ts crit d,
   last (par_pure k ts crit) d = crit /\ last (pure ts crit) d = crit.
-Proof. intros. unfold par_pure, pure. split; apply last_last. Qed.
+Proof. intros. unfold par_pure, par_pure_with, pure. split; apply last_last. Qed.
 
 (** without any hypothesis on the solver: one chunk (chunk size at least the number of temperatures)
     is the sequential algorithm *)
 Theorem par_pure_single_chunk : forall k ts crit, 1 <= k -> length ts <= k -> par_pure k ts crit = pure ts crit.
 Proof.
-  intros k ts crit Hk Hl. unfold par_pure, pure, chunks.
+  intros k ts crit Hk Hl. unfold par_pure, par_pure_with, pure. rewrite collect_chunks_total. unfold chunks.
   destruct ts as [|t ts]; simpl; auto.
   rewrite firstn_all2 by (simpl in *; lia).
   rewrite skipn_all2 by (simpl in *; lia).
   destruct (length ts); simpl; rewrite app_nil_r; reflexivity.
 Qed.
 
-(** without any hypothesis: every state of the parallel result is the solution of its temperature for
-    SOME guess; only the guess differs from the sequential run (which is why C12 is the hypothesis) *)
+(** points where the solver FAILS are skipped by both variants: the result is exactly the list of
+    solutions of the temperatures that have one, in grid order *)
+Lemma solve_seq_filter : guess_independent -> forall ts,
+  solve_seq None ts = flat_map (fun t => match solve t None with Some s => [s] | None => [] end) ts.
+Proof.
+  intros HG ts. induction ts as [|t ts IH]; simpl; auto.
+  destruct (solve t None) eqn:E; simpl; [rewrite solve_seq_guess by assumption|]; rewrite IH; reflexivity.
+Qed.
+
+Theorem par_pure_skips_failures : guess_independent -> forall k ts crit, 1 <= k ->
+  par_pure k ts crit = flat_map (fun t => match solve t None with Some s => [s] | None => [] end) ts ++ [crit].
+Proof.
+  intros HG k ts crit Hk. rewrite par_pure_order by assumption. unfold pure. rewrite solve_seq_filter by assumption.
+  reflexivity.
+Qed.
 End ParPure.
+
+(** * Replay: the point solver given as a table (which grid temperatures have a converged equilibrium),
+    states identified with the index of their temperature *)
+Definition table_solver (ok : list bool) (t : nat) (g : option nat) : option nat :=
+  if nth t ok false then Some t else None.
+
+Lemma table_solver_guess_independent : forall ok, guess_independent nat nat (table_solver ok).
+Proof. intros ok t g. reflexivity. Qed.
+
+Fixpoint list_nat_eqb (a b : list nat) : bool :=
+  match a, b with
+  | [], [] => true
+  | x :: a', y :: b' => Nat.eqb x y && list_nat_eqb a' b'
+  | _, _ => false
+  end.
+
+(** observed: (chunk size, indices of the returned states, critical point = [crit]); returns the cases where
+    the model's [par_pure] differs, with the model's list *)
+Definition par_mismatches (ok : list bool) (crit : nat) (cases : list (nat * list nat)) : list (nat * list nat * list nat) :=
+  flat_map (fun c => let m := par_pure nat nat (table_solver ok) (fst c) (seq 0 (length ok)) crit in
+                     if list_nat_eqb m (snd c) then [] else [(fst c, snd c, m)]) cases.
+
+Definition pure_model (ok : list bool) (crit : nat) : list nat := pure nat nat (table_solver ok) (seq 0 (length ok)) crit.
 
 (** non-vacuity: a guess-independent solver exists, and for a guess-dependent one the two variants differ *)
 Example guess_independent_exists : guess_independent nat nat (fun t _ => if Nat.even t then Some (t * 10) else None).
@@ -133,6 +197,14 @@ Proof. intros t g. reflexivity. Qed.
 Example par_pure_demo :
   par_pure nat nat (fun t _ => if Nat.even t then Some (t * 10) else None) 2 [1; 2; 3; 4; 6] 999 = [20; 40; 60; 999]
   /\ chunks nat 2 [1; 2; 3; 4; 6] = [[1; 2]; [3; 4]; [6]].
+Proof. vm_compute. auto. Qed.
+
+(** a grid whose first temperature has no solution: the shipped worker skips it, a worker that propagates
+    the failure loses the whole first chunk (here temperature 2 as well) *)
+Example failing_point_skipped :
+  let solve := fun (t : nat) (_ : option nat) => if Nat.eqb t 1 then None else Some t in
+  par_pure nat nat solve 2 [1; 2; 3; 4; 5] 0 = [2; 3; 4; 5; 0] /\ pure nat nat solve [1; 2; 3; 4; 5] 0 = [2; 3; 4; 5; 0]
+  /\ par_pure_with nat nat (solve_strict nat nat solve None) 2 [1; 2; 3; 4; 5] 0 = [3; 4; 5; 0].
 Proof. vm_compute. auto. Qed.
 
 Example guess_dependent_differs :
